@@ -436,6 +436,12 @@ def _after_handler(fa, handler):
 def _valid_flag_is(fa, e, n, value, IN=None):
     """Is the leaf value an ExistingMementoResult(...) whose valid flag is the given constant (on the paths
     the definitions `IN` describe)?"""
+    if isinstance(e, ast.Name) and not fa.df.is_local(e.id) and isinstance(fa.fi.module.assigns.get(e.id), ast.Call):
+        # a module-level constant holding the answer
+        mv = fa.fi.module.assigns[e.id]
+        if A.call_attr(mv) == "ExistingMementoResult":
+            v = A.kwarg(mv, "valid_result") or (mv.args[1] if len(mv.args) >= 2 else None)
+            return isinstance(v, ast.Constant) and v.value is value
     if not (isinstance(e, ast.Call) and A.call_attr(e) == "ExistingMementoResult"):
         return False
     v = A.kwarg(e, "valid_result")
@@ -756,6 +762,29 @@ def _handler_cannot_fail(ck, R, fa, h, site, what):
           "the value: %s" % (what, "; ".join(m for (_, m) in faults[:2])), fa.where(faults[0][0]) if faults else fa.where(h))
 
 
+def _is_oserror_class(ck, name) -> bool:
+    """Is the exception class called `name` OSError or one of its subclasses: a builtin (IOError, FileNotFoundError,
+    PermissionError, ... — the interpreter's exception hierarchy) or a class of the repository deriving from one."""
+    import builtins
+    b = getattr(builtins, name or "", None)
+    if isinstance(b, type) and issubclass(b, BaseException):
+        return issubclass(b, OSError)
+    seen = set()
+    todo = [c for c in ck.repo.all_classes() if c.name == name]
+    while todo:
+        c = todo.pop()
+        if c.qual in seen:
+            continue
+        seen.add(c.qual)
+        for bx in c.base_exprs:
+            bn = bx.split(".")[-1]
+            bb = getattr(builtins, bn, None)
+            if isinstance(bb, type) and issubclass(bb, OSError):
+                return True
+        todo += ck.repo.bases(c)
+    return False
+
+
 def check_recovery(ck):
     R = "C08.R3"
     ck.rule(R, "absorb and recover: I/O errors are absorbed around memoize in the local runner, around the read in "
@@ -842,12 +871,16 @@ def check_recovery(ck):
               "an I/O error while reading a memento escapes get_mementos", gm.where(c))
         # json damage (truncated file) is a ValueError: not required by the design table, noted
     ps = FA(ck, "storage_base.DefaultCodec.PicklePartitionStrategy.store")
+    A0p = Assume(ps, lambda e: None)
     for r in ps.stmts(ast.Raise):
-        if r.exc is not None and isinstance(r.exc, ast.Call):
-            nm = A.call_attr(r.exc)
-            ok = nm in ("IOError", "OSError")
-            ck.ob(R, ps.key(r, "io-signal"), ok, "merge failure is signalled as an I/O error (absorbed by the runner)" if ok else
-                  "merge failure is signalled as %s, which the runner does not absorb" % nm, ps.where(r))
+        if r.exc is None or not ps.nodes(r):
+            continue
+        for (leaf, _n) in A0p.cases(r.exc, ps.nodes(r)[0], ps.df.IN):
+            if isinstance(leaf, ast.Call) or (isinstance(leaf, (ast.Name, ast.Attribute)) and (A.dotted(leaf) or "").split(".")[-1][:1].isupper()):
+                nm = A.call_attr(leaf) if isinstance(leaf, ast.Call) else A.dotted(leaf).split(".")[-1]
+                ok = _is_oserror_class(ck, nm)
+                ck.ob(R, ps.key(r, "io-signal"), ok, "merge failure is signalled as an I/O error (absorbed by the runner)" if ok else
+                      "merge failure is signalled as %s, which the runner does not absorb" % nm, ps.where(r))
     # the runner's second use of process_existing_memento treats 'not valid' as 'compute'
     for qual in ("runner_local.memento_run_local", "runner_local.LocalRunnerBackend.batch_run"):
         f = FA(ck, qual)
